@@ -231,6 +231,19 @@ Theorem split_never_in_braces_partial : forall m s pieces, balanced s ->
 Proof. exact split_top_level_lemma. Qed.
 Print Assumptions split_never_in_braces_partial.
 
+(* the same for every string all of whose groups are closed (stray closing braces allowed; depth
+   clamped at 0 as BibTeX does): every piece returns to depth 0, no separator contains an opening brace *)
+Theorem split_never_in_braces_clamped : forall m s pieces, cdepth_from 0 s = 0 ->
+  split_tex_string_gen m s false false = Ok pieces ->
+  (s = [] /\ pieces = []) \/
+  exists pairs lastp,
+    pieces = map fst pairs ++ [lastp] /\
+    s = flat_map (fun ps => fst ps ++ snd ps) pairs ++ lastp /\
+    Forall (fun p => cdepth_from 0 p = 0) pieces /\
+    Forall (Forall (fun c => is_lbrace c = false)) (map snd pairs).
+Proof. exact split_top_level_c_lemma. Qed.
+Print Assumptions split_never_in_braces_clamped.
+
 Theorem split_never_in_braces_refuted :
   exists s pieces p, split_tex_string_gen sep_space s false true = Ok pieces /\
                      In p pieces /\ cdepth_from 0 p <> 0.
